@@ -112,7 +112,7 @@ func c10Sync(st *stats) (failed bool) {
 					st.label("sync:stream-refused")
 					continue
 				}
-				raw, err := tgt.Book.VerifSnapshot()
+				raw, err := sim.RawSnapshot(tgt.Book)
 				if err != nil {
 					continue
 				}
@@ -222,7 +222,7 @@ func c10Sync(st *stats) (failed bool) {
 				}
 			}
 			if tgt.Book.DagLoaded() {
-				if raw, err := tgt.Book.VerifSnapshot(); err == nil {
+				if raw, err := sim.RawSnapshot(tgt.Book); err == nil {
 					for i := range raw.Live {
 						v := &raw.Live[i]
 						if v.Hash == w.Genesis.Hash {
